@@ -106,6 +106,10 @@ type Hooks struct {
 	BeforeClose func(p *Pair, r *ScenResult)
 	// NoClose leaves closing to the hook (BeforeClose must close).
 	NoClose bool
+	// WaitDuring makes the scenario wait for the During hook to return
+	// before it starts closing; the hook's context is cancelled when the
+	// flows have completed or the horizon was reached.
+	WaitDuring bool
 	// OnLeak is called inside the bubble when goroutines of the code under
 	// test are still alive after everything was closed. The bubble cannot
 	// be torn down in that state, so the callback is expected to record
@@ -202,12 +206,18 @@ func runScenBody(sc *Scen, h Hooks, res *ScenResult) {
 	res.A, res.B = fa, fb
 
 	var dwg sync.WaitGroup
+	flowCtx, flowCancel := context.WithCancel(ctx)
+	defer flowCancel()
+	duringDone := make(chan struct{})
 	if h.During != nil {
 		dwg.Add(1)
 		go func() {
 			defer dwg.Done()
-			h.During(ctx, p, fa, fb)
+			defer close(duringDone)
+			h.During(flowCtx, p, fa, fb)
 		}()
+	} else {
+		close(duringDone)
 	}
 
 	// Sample the timeouts at the end of the fault window.
@@ -240,6 +250,10 @@ func runScenBody(sc *Scen, h Hooks, res *ScenResult) {
 	case <-horizon.C:
 	}
 	horizon.Stop()
+	flowCancel()
+	if h.WaitDuring {
+		<-duringDone
+	}
 
 	if res.Completed && sc.Quiesce > 0 {
 		// Let the last ACKs arrive, then observe silence.
@@ -255,6 +269,23 @@ func runScenBody(sc *Scen, h Hooks, res *ScenResult) {
 	}
 	dmu.Lock()
 	closing = true
+	// An endpoint whose quit channel is already closed at this point closed
+	// by itself (or was closed by a hook), even if its watcher goroutine has
+	// not been scheduled yet.
+	if res.DoneC < 0 {
+		select {
+		case <-p.C.VerifDone():
+			res.DoneC = time.Since(t0)
+		default:
+		}
+	}
+	if res.DoneS < 0 {
+		select {
+		case <-p.S.VerifDone():
+			res.DoneS = time.Since(t0)
+		default:
+		}
+	}
 	dmu.Unlock()
 	cs := time.Now()
 	if !h.NoClose {
